@@ -30,6 +30,7 @@ def check(prop, tier, seed, replay_path=None, selftest=False, keep=False):
         # the per-file loop of the plug-in process: as found every output is rendered with its own file's helpers; caching the parsed
         # templates (bound to the first file's helpers) is the expected violation
         mcs.append(V.tlc_mc(scratch, "GenLoop", "GenLoop.cfg"))
+        mcs.append(V.tlc_mc(scratch, "GenLoop", "GenLoop_live.cfg"))     # the loop terminates and renders every requested file
         expected.append(tlc_expect_violation(scratch, "GenLoop", "GenLoop_cacheonce.cfg", "PerFile"))
         cdir, entries, drv = corpus.build(scratch)
         # spec -> code: the parameter domain TLC printed, one plug-in run per (key, value)
